@@ -51,23 +51,36 @@ func concOnce(impl string, size int, cfg ConcCfg, s *vrt.Sched) (evs []cev, dead
 			vrt.Go(fmt.Sprintf("reader-%d", r), func() {
 				defer func() { done++; vrt.Released("reader.done") }()
 				for k := 0; k < cfg.Reads; k++ {
-					saw, same, prot := false, false, ""
+					saw, same, prot, prot2 := false, false, "", "RO"
 					nested := k%2 == 1
 					err := sec.WithBytes(func(b []byte) error {
 						saw = true
-						same = bytes.Equal(b, orig)
-						prot = sh.Kernel().Prot
+						emit(cev{"e": "enter", "g": vrt.GID()})
+						defer emit(cev{"e": "exit", "g": vrt.GID()})
+						// look at the kernel's view first: reading pages that are not readable would kill the process
+						if prot = sh.Prot(); prot == "RO" {
+							same = bytes.Equal(b, orig)
+						}
 						if nested { // a nested reader on the same secret
 							return sec.WithBytes(func(b2 []byte) error {
-								same = same && bytes.Equal(b2, orig)
+								if p3 := sh.Prot(); p3 == "RO" {
+									same = same && bytes.Equal(b2, orig)
+								} else {
+									prot2 = p3
+								}
 								vrt.Yield("reader.in-callback")
 								return nil
 							})
 						}
 						vrt.Yield("reader.in-callback")
+						// still inside the callback after others ran: the pages must still be readable (checked through the
+						// kernel first, so that a violation is reported instead of faulting)
+						if prot2 = sh.Prot(); prot2 == "RO" {
+							same = same && bytes.Equal(b, orig)
+						}
 						return nil
 					})
-					emit(cev{"e": "read", "g": vrt.GID(), "ok": err == nil, "saw": saw, "bytes": same, "prot": prot})
+					emit(cev{"e": "read", "g": vrt.GID(), "ok": err == nil, "saw": saw, "bytes": same, "prot": prot, "prot2": prot2})
 				}
 			})
 		}
@@ -77,13 +90,13 @@ func concOnce(impl string, size int, cfg ConcCfg, s *vrt.Sched) (evs []cev, dead
 				vrt.Yield("closer.start")
 				emit(cev{"e": "closing", "g": vrt.GID()})
 				err := sec.Close()
-				emit(cev{"e": "close", "g": vrt.GID(), "ok": err == nil})
+				emit(cev{"e": "close", "g": vrt.GID(), "ok": err == nil, "closed": sec.IsClosed()})
 			})
 		}
 		vrt.WaitUntil("main.join", func() bool { return done == cfg.Readers+cfg.Closers })
 		if cfg.Closers == 0 {
 			emit(cev{"e": "closing", "g": vrt.GID()})
-			emit(cev{"e": "close", "g": vrt.GID(), "ok": sec.Close() == nil})
+			emit(cev{"e": "close", "g": vrt.GID(), "ok": sec.Close() == nil, "closed": sec.IsClosed()})
 		}
 		k := sh.Kernel()
 		emit(cev{"e": "end", "closed": sec.IsClosed(), "mapped": k.Mapped, "readAfter": sec.WithBytes(func([]byte) error { return nil }) == nil})
